@@ -12,11 +12,14 @@ def props():
 
 
 def selftest():
-    from . import universe, ref, build, budget
+    from . import universe, ref, build, budget, choice, sched, tlc
     universe.selftest()
     ref.selftest()
     build.selftest()
     budget.selftest()
+    choice.selftest()
+    sched.selftest()
+    tlc.selftest()      # TLC on the 2-worker/2-file model: 75 states, 8 terminal trace classes
     import json
     import tempfile
     # schema validation of a dummy evidence file
@@ -31,7 +34,7 @@ def selftest():
     finally:
         import shutil
         shutil.rmtree(d, ignore_errors=True)
-    print("selftest ok: universe, ref, build, budget, evidence schema; properties:", " ".join(props()))
+    print("selftest ok: universe, ref, build, budget, choice, sched, tlc, evidence schema; properties:", " ".join(props()))
     return 0
 
 
